@@ -212,6 +212,10 @@ class BaseSamples:
             x = np.stack([dictionary[p] for p in parameters], axis=-1)
             for p in parameters:
                 dictionary.pop(p, None)
+        # to_dict() also exports derived fields (init=False, e.g. log_w and
+        # weights of Samples); they are recomputed by __post_init__
+        init_fields = {f.name for f in fields(cls) if f.init}
+        dictionary = {k: v for k, v in dictionary.items() if k in init_fields}
         return cls(x=x, parameters=parameters, **dictionary)
 
     def to_dataframe(self, include: list[str] | None = None) -> "pd.DataFrame":
